@@ -90,6 +90,75 @@ def binary(op, a, b, numpoly):
     return getattr(numpoly, op)(a, b)
 
 
+def gen_numeric(tier, rng):
+    for _ in range(count(tier, 120, 1200)):
+        spec = rand_poly(rng, shape=rng.choice([(2,), (2, 2), ()]), pool=[-1, 1, 2, 3])
+        yield {"p": spec, "route": rng.choice(["ndpoly", "from_attributes_retain", "from_attributes", "polynomial_dict", "ndpoly_names",
+                                               "multiply_where", "add_where", "call_arrays", "getitem_index", "where_cond",
+                                               "choose_index", "repeat_counts", "monomial_bounds", "glexsort_keys", "savetxt_none"]),
+               "edtype": rng.choice(["uint32", "int64", "uint32", "int32"])}
+
+
+@check("C17", "numeric_arguments.unchanged", gen_numeric, functions=("numpoly.ndpoly", "numpoly.polynomial_from_attributes", "numpoly.multiply"),
+       note="bounded: plain numeric arrays handed to constructors and functions (exponent tables of dtype uint32/int32/int64, "
+            "coefficient arrays, where= masks, index/count arrays, evaluation points) keep their bytes")
+def numeric_arguments(inp):
+    import numpoly
+    spec = inp["p"]
+    E = numpy.array(spec["exponents"], dtype=inp["edtype"]).reshape(len(spec["coefficients"]), -1)
+    C = [numpy.array(c, dtype=spec["dtype"]) for c in spec["coefficients"]]
+    names = tuple(spec["names"])
+    p = operand({"poly": spec})
+    shape = C[0].shape
+    mask = numpy.zeros(shape, dtype=bool)
+    if mask.size:
+        mask.reshape(-1)[0] = True
+    pts = [numpy.array([1, 2, 3]) for _ in names]
+    idx = numpy.array([0])
+    held = {"E": E, "C": C, "mask": mask, "pts": pts, "idx": idx, "p": p}
+    before = {k: snapshot(v) for k, v in held.items()}
+    route = inp["route"]
+    try:
+        if route == "ndpoly":
+            numpoly.ndpoly(exponents=E, shape=shape)
+            numpoly.ndpoly(exponents=E, shape=shape)          # the table is reused by the caller
+        elif route == "ndpoly_names":
+            numpoly.ndpoly(exponents=E, shape=shape, names=names)
+        elif route == "from_attributes_retain":
+            numpoly.polynomial_from_attributes(E, C, names, retain_coefficients=True, retain_names=True)
+        elif route == "from_attributes":
+            numpoly.polynomial_from_attributes(E, C, names)
+        elif route == "polynomial_dict":
+            numpoly.polynomial({tuple(int(x) for x in e): c for e, c in zip(E, C)}, names=names)
+        elif route == "multiply_where":
+            numpoly.multiply(p, p + 1, where=mask)
+        elif route == "add_where":
+            numpoly.add(p, p, where=mask if mask.shape else True)
+        elif route == "call_arrays":
+            p(*pts)
+        elif route == "getitem_index":
+            p[idx] if p.shape else None
+        elif route == "where_cond":
+            numpoly.where(mask, p, p * 2)
+        elif route == "choose_index":
+            numpoly.choose(numpy.zeros(shape, dtype=int), [p, p + 1]) if p.shape else None
+        elif route == "repeat_counts":
+            numpoly.repeat(p, numpy.array([1] * p.shape[0]), axis=0) if p.shape else None
+        elif route == "monomial_bounds":
+            numpoly.monomial(numpy.array([0, 0]), numpy.array([2, 3]))
+        elif route == "glexsort_keys":
+            numpoly.glexsort(E.T, graded=True, reverse=True)
+        elif route == "savetxt_none":
+            import io
+            numpoly.savetxt(io.StringIO(), p)
+    except Exception:
+        pass
+    for k, v in held.items():
+        if snapshot(v) != before[k]:
+            return f"argument `{k}` modified by route {route}"
+    return None
+
+
 @check("C17", "arguments.unchanged", gen, functions=(),
        note="bounded: 49 unary and 33 binary public operations (functions, operators, methods, properties) on polynomials, "
             "views of polynomials, plain arrays; byte-level snapshot before/after on normal and exceptional exits")
